@@ -89,4 +89,24 @@ func VerifH_C05_L4_startHistory() {
 	if q.started && !ambiguous {
 		vz.Cover("started-and-delivered")
 	}
+	// What the counter is for: with this Job running, a second Enqueue Job of the
+	// JobConfig arrives and the queue is synced again. It must not be started
+	// beside the first one beyond maxConcurrency.
+	if delivery == 0 {
+		*q.job = *active // the cache has caught up: the first Job is started and running
+		q.queued = false
+		j1 := &verifQJob{job: &execution.Job{}, queued: true, policy: execution.ConcurrencyPolicyEnqueue}
+		j1.job.Namespace = "ns"
+		j1.job.Name = "j1"
+		j1.job.Labels = q.job.Labels
+		j1.job.CreationTimestamp = metav1.NewTime(time.Unix(200, 0))
+		j1.job.Spec.StartPolicy = &execution.StartPolicySpec{ConcurrencyPolicy: execution.ConcurrencyPolicyEnqueue}
+		env.jobs = append(env.jobs, j1)
+		ctx.jobInformer.(*fakes.JobInformer).L.(*fakes.JobLister).Items = append(ctx.jobInformer.(*fakes.JobInformer).L.(*fakes.JobLister).Items, j1.job)
+		env.api.Decide = nil
+		_ = r.SyncOne(context.Background(), "ns", "jc", 0)
+		vz.Cover("second-job-arrives")
+		// background Jobs (c0 of them) plus the first Job are really running
+		vz.Assert(!j1.started || env.c0+1 < env.max, "C05/L4/second-job-not-started-beyond-maxConcurrency")
+	}
 }
